@@ -337,14 +337,16 @@ func TestVerifC39(t *testing.T) {
 		switch n {
 		case "flag":
 			plans = append(plans, plan{n, 3, 3, 1, 1, false})
-		case "gcounter", "pncounter", "mvregister":
+		case "gcounter", "pncounter":
 			plans = append(plans, plan{n, 2, vsched.Pick(3, 4), 1, 1, false}, plan{n, 3, vsched.Pick(2, 3), 1, 1, false})
+		case "mvregister":
+			plans = append(plans, plan{n, 2, vsched.Pick(3, 4), 1, 1, false}, plan{n, 3, vsched.Pick(2, 3), 1, vsched.Pick(1, 0), false})
 		case "lwwregister":
 			// main scenarios: local timestamps never go back and a (timestamp,node) pair is never
 			// reused; "anyts": no restriction (timestamps are caller supplied)
-			plans = append(plans, plan{n, 2, 3, 1, 1, true}, plan{n, 3, vsched.Pick(2, 3), 1, 1, true}, plan{n, 2, 2, 1, 1, false})
+			plans = append(plans, plan{n, 2, 3, 1, 1, true}, plan{n, 3, vsched.Pick(2, 3), 1, vsched.Pick(1, 0), true}, plan{n, 2, 2, 1, 1, false})
 		default:
-			plans = append(plans, plan{n, 2, 3, 1, 1, false}, plan{n, 3, 3, vsched.Pick(0, 1), vsched.Pick(0, 1), false})
+			plans = append(plans, plan{n, 2, 3, 1, 1, false}, plan{n, 3, 3, 0, vsched.Pick(0, 1), false})
 		}
 	}
 	specs := map[string]c38Spec{}
